@@ -72,10 +72,17 @@ class Check:
 
     # ------------------------------------------------------------------ known findings
     def _load_known(self):
-        if not os.path.exists(KNOWN_FINDINGS):
-            return []
-        data = json.load(open(KNOWN_FINDINGS))
-        return [f for f in data.get("findings", []) if f.get("property") == self.pid]
+        out = []
+        files = [KNOWN_FINDINGS]
+        d = os.path.join(VERIF, "known_findings.d")
+        if os.path.isdir(d):
+            files += [os.path.join(d, f) for f in sorted(os.listdir(d)) if f.endswith(".json")]
+        for fn in files:
+            if not os.path.exists(fn):
+                continue
+            data = json.load(open(fn))
+            out += [f for f in data.get("findings", []) if f.get("property") == self.pid]
+        return out
 
     # ------------------------------------------------------------------ TLC
     def tlc(self, module, cfg=None, *, required_actions=(), **kw):
